@@ -144,7 +144,52 @@ func init() {
 			ti := types[i%len(types)]
 			cr := r.fork()
 			data := u.validBytes(cr, ti, st)
-			switch cr.intn(8) {
+			switch cr.intn(9) {
+			case 8: // a number that one message on the path does not know and another one does: sent, as an unknown field,
+				// inside a sub-message, and once more - with a wire type its field does not accept - in the message that
+				// knows it (before or after the sub-message); what was skipped at one level says nothing about another
+				if recs, ok := u.parseRecs(ti, nil, data); ok {
+					var nested []int
+					for j, x := range recs {
+						if x.hasKid && x.ti != nil {
+							nested = append(nested, j)
+						}
+					}
+					if len(nested) > 0 {
+						j := nested[cr.intn(len(nested))]
+						pr := recs[j]
+						inner := map[int32]bool{}
+						for _, f := range pr.ti.S.Msgs[pr.ti.MI].Fields {
+							inner[f.Num] = true
+						}
+						var cands []*Field
+						fs := ti.S.Msgs[ti.MI].Fields
+						for k := range fs {
+							if f := &fs[k]; !inner[f.Num] && !f.IsMap && f.Custom == CNone {
+								cands = append(cands, f)
+							}
+						}
+						if len(cands) > 0 {
+							f := cands[cr.intn(len(cands))]
+							raw := genUnknownValue(cr, nil, protowire.Number(f.Num), 2)
+							if inj, ok := u.parseRecs(nil, nil, raw); ok && len(inj) == 1 {
+								pos := cr.intn(len(pr.kids) + 1)
+								pr.kids = append(pr.kids[:pos:pos], append([]*wrec{inj[0]}, pr.kids[pos:]...)...)
+								wrong := &wrec{num: protowire.Number(f.Num), typ: protowire.Fixed32Type, u64: 7}
+								if k := f.Kind; k == KFixed32 || k == KSfixed32 || k == KFloat {
+									wrong.typ = protowire.VarintType
+								}
+								at := j + 1
+								if cr.intn(3) == 0 {
+									at = j
+								}
+								recs = append(recs[:at:at], append([]*wrec{wrong}, recs[at:]...)...)
+								u.decCase(out, ti, serialize(recs), "number-known-at-another-level")
+								continue
+							}
+						}
+					}
+				}
 			case 7: // a length-delimited record INSIDE a known sub-message (a sub-sub-message when there is one) whose length
 				// prefix is cut short or claims more than the enclosing payload holds; the outer frame stays intact
 				if recs, ok := u.parseRecs(ti, nil, data); ok {
